@@ -513,8 +513,54 @@ def rule_REC(ctx, rid='G5'):
     return n
 
 
+def rule_RETRY(ctx, rid='S4'):
+    """split(): (a) the retry after a refused candidate terminates - the recursive call is
+    dominated by `self.block[index] = True`, which excludes the candidate that was just refused;
+    (b) the overlap refusal is taken exactly when overlap is not allowed and the candidate
+    overlaps."""
+    ctx.rule(rid, 'split(): a refused candidate is blocked before the retry (termination); the '
+             'overlap refusal is taken when overlap is not allowed and the children overlap')
+    f = ctx.program.func('Union.split')
+    cfg = cfg_of(f)
+    sn = f.self_name
+    recs = [c for c in walk_no_nested(f.node) if isinstance(c, ast.Call) and
+            dotted(c.func) == '%s.split' % sn and cfg.has(c)]
+    blocks = {cfg.node_of(st).id for st in walk_no_nested(f.node)
+              if isinstance(st, ast.Assign) and cfg.has(st) and
+              isinstance(st.targets[0], ast.Subscript) and
+              dotted(st.targets[0].value) == '%s.block' % sn and
+              isinstance(st.value, ast.Constant) and st.value.value is True}
+    for c in recs:
+        nid = cfg.node_of(c).id
+        ok = any(cfg.dominates(b, nid) for b in blocks)
+        ctx.ob(rid, 'Union.split:retry-excludes-refused-candidate', ok, f.where(c),
+               'the ellipsoid whose split was refused is blocked before split() calls itself '
+               'again' if ok else
+               'split() calls itself again without blocking the ellipsoid whose split it has '
+               'just refused: the same candidate is chosen again - unbounded recursion '
+               '(RecursionError) instead of `return False`')
+    # the overlap refusal
+    tests = [t for t in cfg.nodes if t.kind == 'test' and t.expr is not None and
+             'ellipsoids_overlap' in unparse(t.expr)]
+    for t in tests:
+        rets = [s_ for s_, lab in t.succ if lab is True and cfg.nodes[s_].kind == 'stmt' and
+                isinstance(cfg.nodes[s_].ast, ast.Return)]
+        if not rets:
+            continue
+        facts = {(tx, tr) for _, tx, tr in cfg.facts(rets[0])}
+        ok = ('allow_overlap', False) in facts and any(
+            'ellipsoids_overlap' in tx and tr is True for tx, tr in facts)
+        ctx.ob(rid, 'Union.split:overlap-refusal-polarity', ok, f.where(t.ast),
+               'the split is refused when overlap is not allowed and the children would overlap'
+               if ok else
+               'the refusal `%s` is not "overlap not allowed AND children overlap": with '
+               'allow_overlap=False overlapping ellipsoids are accepted (or non-overlapping '
+               'splits refused when overlap is allowed)' % unparse(t.expr)[:60])
+
+
 def run(ctx):
     rule_REC(ctx)
+    rule_RETRY(ctx)
     prog = ctx.program
     ctx.rule('L1', 'group-complete: along every bounded path, all members of an aligned group '
              'undergo the same sequence of structural updates with the same selectors')
